@@ -232,6 +232,8 @@ def main():
             "bounded_stand_ins_not_counted_as_proved": bounded_units,
             "not_decided": cfg.get("not_decided", []),
             "known_findings_hit": [k["what"] for k, _ in known_hits],
+            "unit_results_reused_from_cache": [r["unit"] for r in unit_results if r.get("cache_hit")],
+            "cache_note": "Verus unit verdicts are cached by the SHA-256 of the assembled file (it contains the code extracted from the repo on this run); a hit means the identical text was verified earlier in this sandbox",
             "undecided": undecided,
             "repo": repo,
         },
